@@ -49,6 +49,11 @@ bool rsValuesFacet::SetStructureData(const EntityUID target, const object::Struc
 }
 
 bool rsValuesFacet::CheckBasicElements(const object::StructuredData& data, const rslang::Typification& type) const {
+  // Note: the typification may have changed since the data was stored (a definition it depends on was edited)
+  if (data.Structure() != type.Structure() ||
+      (data.IsTuple() && data.T().Arity() != type.T().Arity())) {
+    return false;
+  }
   switch (data.Structure()) {
   default:
   case ccl::rslang::StructureType::basic: {
@@ -181,7 +186,7 @@ void rsValuesFacet::PruneStructure(const EntityUID target) {
     return;
   }
   const auto& type = std::get<rslang::Typification>(typeValue.value());
-  if (!oldData->IsCollection()) {
+  if (!oldData->IsCollection() || !type.IsCollection()) {
     if (!CheckBasicElements(oldData.value(), type)) {
       storage->Erase(target);
     }
